@@ -35,7 +35,7 @@ theorem upsert_eq_plain (cfg : Cfg) (now : Int) (c c1 : Coll) (fs : Fields) (u :
   split
   · rename_i ss dfs h1 h2
     cases h1
-    cases emptyOperatorCheck cfg dfs with
+    cases updatePrecheck cfg dfs with
     | error e => rfl
     | ok _ =>
       simp only [preLoop_eq now c c1 _ he hne]
@@ -93,7 +93,7 @@ theorem loop_length (now : Int) (spec document nowV : Val) (multi : Bool) :
             rw [ha] at h
             dsimp only at h
             have hlen := setDoc_length c key new hk
-            by_cases hc : (if c.isOD key then pyEqOrdered new cur else pyEq new cur) = true
+            by_cases hc : pyEq new cur = true
             · rw [if_pos hc] at h
               -- the unique indexes are checked on the "unchanged" branch as well
               cases hu : ensureUniques now (c.setDoc key new) new with
@@ -234,7 +234,6 @@ theorem afterLoop_insert (now : Int) (spec document nowV : Val) (ss dfs : Fields
       obtain ⟨dd, h1, h2⟩ := insert_fresh_id now ic.2 c5 built newId (ht.trans hn) hi
       refine ⟨newId, dd, rfl, ?_, h2, rfl, rfl, rfl⟩
       rw [← hc, ← hd, ← h1]
-      split <;> rfl
 
 theorem upsert_iff_no_match_main (cfg : Cfg) (now : Int) (c c1 c' : Coll) (fs : Fields) (u : Val)
     (multi : Bool) (sel : List (Val × Val)) (r : UpdateResult)
